@@ -6,6 +6,8 @@
 // the exact weighted, datum-constrained least-squares solution computed from the specification.
 #include "netcommon.h"
 #include <fstream>
+#include <gnu_gama/xml/localnetwork_adjustment_results.h>
+#include <gnu_gama/statan.h>
 
 using namespace N;
 static std::string g_prop;
@@ -340,6 +342,56 @@ static void case_outlier(const Spec2& spec, int alg, int k) {
   sx::reached("net2d-outlier");
 }
 
+// C12: the adjustment XML of a plane network read back by gama's own reader (orientation shifts, directions, angles, distances)
+static void same_printed(Real got, Real want, const std::string& label, sx::f64 abs_tol = 0) {
+  if (sx::is_const(got) && sx::is_const(want)) { sx::f64 a = sx::numeric(got), b = sx::numeric(want); sx::f64 sc = ::fabs(b) > 1 ? ::fabs(b) : 1;
+    sx::check_true(::fabs(a - b) <= (abs_tol > 0 ? abs_tol : (sx::f64)1e-6 * sc), label + " (to the printed precision)", sx::show(got) + " vs " + sx::show(want)); }
+  else sx::check_eq(got, want, label);
+}
+static Real wrap400(Real z) { if (z < sx::rat(0)) z = z + sx::rat(400); if (z > sx::rat(400)) z = z - sx::rat(400); return z; }
+static void case_xml2d(const Spec2& spec, int alg) {
+  // observation errors below 1e-7 rad / 0.01 mm and the a priori reference deviation: the writer's outlier tests then have one outcome
+  std::vector<Real> err; { size_t k = 0; int last_dir = -1; for (auto& st : spec.st) { last_dir = -1; for (auto& ob : st.obs) { Real e = sx::input("e" + std::to_string(++k)); if (ob.kind == 1) sx::assume_range(e, Q(-1, 100000), Q(1, 100000)); else sx::assume_range(e, Q(-1, 10000000), Q(1, 10000000));
+        if (ob.kind == 0) { if (last_dir >= 0) sx::assume_lt(err[last_dir], e); last_dir = (int)err.size(); } err.push_back(e); } } }
+  B2 b; if (!build2d(b, spec, err, ALGS[alg])) return; std::string tag = std::string(ALGS[alg]) + " xml";
+  LocalNetwork* IS = b.net.IS.get();
+  { Real crit = GNU_gama::Normal((sx::rat(1) - IS->conf_pr()) / sx::rat(2)); sx::assume_range(crit, mpq_class(19, 10), mpq_class(2)); }
+  R2 r = run2d(b, false); sx::check_true(r.ok, tag + " adjusted", r.why); if (!r.ok) return;
+  std::ostringstream xml; GNU_gama::LocalNetworkXML writer(IS); writer.write(xml);
+  GNU_gama::LocalNetworkAdjustmentResults res;
+  try { std::istringstream in(xml.str()); res.read_xml(in); }
+  catch (const GNU_gama::Exception::parser& e) { sx::fail(tag + " the written XML is rejected by the result reader", std::string(e.what()) + " line " + std::to_string(e.line)); return; }
+  catch (...) { sx::fail(tag + " the written XML is rejected by the result reader", "exception"); return; }
+  const GNU_gama::local::Vec& x = IS->solve(); Real R2Gc = Real((sx::f64)(200.0 / M_PI));
+  sx::check_true(res.project_equations.equations == r.m && res.project_equations.unknowns == r.n && res.project_equations.degrees_of_freedom == r.dof && res.project_equations.defect == r.defect, tag + " counts read back", "");
+  same_printed(res.project_equations.sum_of_squares, r.vpv, tag + " sum of squares read back");
+  // adjusted points
+  for (auto& p : res.adjusted_points) { const LocalPoint& lp = IS->PD[PointID(p.id)]; sx::check_true(p.hxy && lp.free_xy(), tag + " adjusted point " + p.id + " has x,y", ""); if (!p.hxy || !lp.free_xy()) continue;
+    same_printed(p.x, lp.x() + x(lp.index_x()) / sx::rat(1000), tag + " adjusted x of " + p.id + " read back", (sx::f64)1e-8); same_printed(p.y, lp.y() + x(lp.index_y()) / sx::rat(1000), tag + " adjusted y of " + p.id + " read back", (sx::f64)1e-8);
+    sx::check_true(p.cxy == lp.constrained_xy(), tag + " constrained flag of " + p.id, ""); }
+  { int nfree = 0; for (auto& p : spec.pts) if (p.st != 'f') nfree++; sx::check_true((int)res.adjusted_points.size() == nfree, tag + " number of adjusted points", std::to_string(res.adjusted_points.size())); }
+  // orientation shifts
+  { int k = 0; for (int i = 1; i <= r.n; i++) if (IS->unknown_type(i) == 'R') { sx::check_true(k < (int)res.orientations.size(), tag + " orientation listed", ""); if (k >= (int)res.orientations.size()) break; auto& o = res.orientations[k++];
+      sx::check_true(o.id == IS->unknown_pointid(i).str(), tag + " orientation belongs to station " + IS->unknown_pointid(i).str(), o.id);
+      Real z = wrap400(IS->unknown_standpoint(i)->orientation() * sx::rat(200) / Real(M_PI));      // y_sign*(o)*R2G expands to ((y_sign*o)*200.0)/M_PI same_printed(o.approx, z, tag + " approximate orientation of " + o.id + " read back", (sx::f64)1e-5);
+      same_printed(o.adj, wrap400(z + x(i) / sx::rat(10000)), tag + " adjusted orientation of " + o.id + " read back", (sx::f64)1e-5); }
+    sx::check_true(k == (int)res.orientations.size(), tag + " number of orientation shifts", ""); }
+  // observations
+  sx::check_true((int)res.obslist.size() == r.m, tag + " observation list length", "");
+  if ((int)res.obslist.size() == r.m) for (int i = 1; i <= r.m; i++) { auto& ob = res.obslist[i - 1]; Observation* real = IS->ptr_obs(i); std::string n = std::to_string(i);
+    sx::check_true(ob.from == real->from().str(), tag + " observation " + n + " station", ob.from);
+    if (dynamic_cast<Distance*>(real)) { sx::check_true(ob.xml_tag == "distance" && ob.to == real->to().str(), tag + " observation " + n + " is a distance to the same point", ob.xml_tag);
+      same_printed(ob.obs, real->value(), tag + " observed distance " + n, (sx::f64)1e-8); same_printed(ob.adj, real->value() + r.r[i - 1] / sx::rat(1000), tag + " adjusted distance " + n, (sx::f64)1e-8); }
+    else if (dynamic_cast<Direction*>(real)) { sx::check_true(ob.xml_tag == "direction" && ob.to == real->to().str(), tag + " observation " + n + " is a direction to the same point", ob.xml_tag);
+      Real m = R2Gc * real->value(); same_printed(ob.obs, m, tag + " observed direction " + n, (sx::f64)1e-8); Real a = m + r.r[i - 1] / sx::rat(10000); if (a < sx::rat(0)) a = a + sx::rat(400); if (a >= sx::rat(400)) a = a - sx::rat(400);
+      same_printed(ob.adj, a, tag + " adjusted direction " + n, (sx::f64)1e-8); }
+    else if (Angle* an = dynamic_cast<Angle*>(real)) { sx::check_true(ob.xml_tag == "angle" && ob.left == an->bs().str() && ob.right == an->fs().str(), tag + " observation " + n + " is an angle between the same points", ob.xml_tag + " " + ob.left + " " + ob.right);
+      Real m = R2Gc * real->value(); same_printed(ob.obs, m, tag + " observed angle " + n, (sx::f64)1e-8); Real a = m + r.r[i - 1] / sx::rat(10000); if (a < sx::rat(0)) a = a + sx::rat(400); if (a >= sx::rat(400)) a = a - sx::rat(400);
+      same_printed(ob.adj, a, tag + " adjusted angle " + n, (sx::f64)1e-8); }
+    same_printed(ob.qrr, IS->wcoef_res(i), tag + " qrr " + n, (sx::f64)6e-4); }
+  sx::reached("net2d-xml");
+}
+
 // ---- families ---------------------------------------------------------------------------------------------
 static Spec2 quad(const std::string& name, const std::string& status, bool with_dist, bool with_angles, int seed) {
   Spec2 s; s.name = name; qla::Rng rng(seed);
@@ -391,6 +443,8 @@ static void gen_cases(const sx::Options& opt, std::vector<sx::Case>& cases) {
     for (int q : {0, 4}) { int alg = (k++) % 3; auto sp = std::make_shared<Spec2>(freen[2]); add("net2d/outlier/" + freen[2].name + "/" + ALGS[alg] + "/obs" + std::to_string(q), "plane networks", [sp, alg, q] { case_outlier(*sp, alg, q); }); }
     for (auto& s : fixed) { if (&s != &fixed[0] && !th) continue; int nobs = 0; for (auto& st : s.st) nobs += (int)st.obs.size();
       for (int q = 0; q < nobs; q += (th ? 2 : 5)) { int alg = (k++) % 3; auto sp = std::make_shared<Spec2>(s); add("net2d/outlier/" + s.name + "/" + ALGS[alg] + "/obs" + std::to_string(q), "plane networks", [sp, alg, q] { case_outlier(*sp, alg, q); }); } } }
+  if (on("C12")) { int k = 0; for (auto& s : fixed) { int alg = (k++) % 3; auto sp = std::make_shared<Spec2>(s); add("net2d/xml/" + s.name + "/" + ALGS[alg], "plane networks", [sp, alg] { case_xml2d(*sp, alg); }); }
+    { auto sp = std::make_shared<Spec2>(freen[2]); add("net2d/xml/" + freen[2].name + "/envelope", "plane networks", [sp] { case_xml2d(*sp, 0); }); } }
   if (on("C08")) { for (int alg = 0; alg < 3; alg++) { auto sp = std::make_shared<Spec2>(freen[0]); add(std::string("net2d/datum/quad-dd/") + ALGS[alg], "plane networks", [sp, alg] { case_datum(*sp, alg, {"ccccc", "ccaaa", "acaca", "aaccc"}); });
       auto sq = std::make_shared<Spec2>(freen[1]); add(std::string("net2d/datum/quad-d/") + ALGS[alg], "plane networks", [sq, alg] { case_datum(*sq, alg, {"ccccc", "ccaaa", "acaca"}); }); } }
 }
